@@ -265,7 +265,32 @@ async def F16():
     return (src.ends != ref.ends, f"batched(<1 item>, 2): end-of-source detections asyncstdlib {src.ends}, itertools {ref.ends}")
 
 
-ALL = [F1, F2, F3, F4, F5, F6, F7, F8, F9, F10, F11, F12, F13, F14, F15, F16]
+async def F17():
+    got = []
+
+    def cb(**kw):
+        got.append(kw)
+    try:
+        async with a.ExitStack() as stack:
+            stack.callback(cb, callback=1, self=2)
+    except TypeError as exc:
+        return True, f"ExitStack.callback(cb, callback=1, self=2): {exc} (contextlib's stacks call cb(callback=1, self=2))"
+    return (got != [{"callback": 1, "self": 2}], f"callback received {got}")
+
+
+async def F18():
+    @a.lru_cache
+    async def f(self, x):
+        return (self, x)
+    try:
+        got = await f(self=1, x=2)
+        f.cache_discard(self=1, x=2)
+    except TypeError as exc:
+        return True, f"cached f(self=1, x=2): {exc} (functools.lru_cache accepts the call)"
+    return (got != (1, 2), f"f(self=1, x=2) -> {got}")
+
+
+ALL = [F1, F2, F3, F4, F5, F6, F7, F8, F9, F10, F11, F12, F13, F14, F15, F16, F17, F18]
 
 
 def main():
